@@ -1,4 +1,4 @@
-from jinja2 import Environment, contextfilter
+from jinja2 import Environment, StrictUndefined, Undefined, contextfilter
 from jinja2.nativetypes import NativeEnvironment
 
 from rpft.logger.logger import get_logger
@@ -33,11 +33,13 @@ class CellParser:
         return eval(string, {}, context)
 
     def __init__(self):
-        self.env = Environment()
+        self.env = Environment(undefined=StrictUndefined)
         self.env.filters["escape"] = CellParser.escape_string
         self.env.filters["eval"] = CellParser.evaluate_string
         self.native_env = NativeEnvironment(
-            variable_start_string="{@", variable_end_string="@}"
+            variable_start_string="{@",
+            variable_end_string="@}",
+            undefined=StrictUndefined,
         )
         self.native_env.filters["escape"] = CellParser.escape_string
         self.native_env.filters["eval"] = CellParser.evaluate_string
@@ -125,7 +127,12 @@ class CellParser:
                 is_object.boolean = True
 
         try:
-            return env.from_string(stripped).render(context)
+            result = env.from_string(stripped).render(context)
+            if isinstance(result, Undefined):
+                # A native template naming an undefined variable evaluates to the
+                # undefined object itself; using it raises the error.
+                str(result)
+            return result
         except Exception as e:
             LOGGER.critical(
                 f'Error while parsing cell "{stripped}" with context "{context}":'
